@@ -1,5 +1,5 @@
 SPECIFICATION Spec
-CONSTANTS Lines <- Id9  Prog <- ProgRecur  BpSets <- BpsRecur  MaxReq = 2  Deviations <- NoDev  Fuel = 60
+CONSTANTS LibLines <- NoLib  Lines <- Id9  Prog <- ProgRecur  BpSets <- BpsRecur  MaxReq = 2  Deviations <- NoDev  Fuel = 60
 INVARIANT TypeOK
 INVARIANT StoppedIsHalted
 INVARIANT StepExact
